@@ -346,6 +346,30 @@ def closed_cfgs(draw, max_n=14, min_n=3, modes=MODES):
     return repair(n, raw)
 
 
+@st.composite
+def multiway_graphs(draw, max_n=9, max_deg=6):
+    """flat block graphs whose blocks have up to max_deg ordered distinct successors (what synthetic heads / exit
+    branches of many-way loops look like), one entry, every block reachable from it; named {str: (str, ...)}"""
+    n = draw(st.integers(2, max_n))
+    g = {i: [] for i in range(n)}
+    for i in range(1, n):  # spanning skeleton
+        p = draw(st.integers(0, i - 1))
+        g[p].append(i)
+    dense = draw(st.booleans())  # half of the graphs: (almost) every block is many-way
+    for i in range(n):
+        k = draw(st.sampled_from([3, 4, 5, 6, 6] if dense else [0, 0, 1, 2, 3, 4, 5, 6]))
+        for _ in range(k):
+            if len(g[i]) >= max_deg:
+                break
+            t = draw(st.integers(1, n - 1))
+            if t not in g[i]:
+                if draw(st.booleans()):
+                    g[i].append(t)
+                else:
+                    g[i].insert(0, t)
+    return {str(i): tuple(str(t) for t in g[i]) for i in range(n)}
+
+
 _stmt_leaf = st.sampled_from(["S", "S", "B", "C", "R"])
 
 
